@@ -184,7 +184,8 @@ def run(sched):
         if isinstance(data, str):
             data = bytes.fromhex(data)
         local = LOCAL_MCAST if step.get("loc") == "m" else LOCAL_UNICAST
-        w.net.inject(state["sock"], data, sockaddr(step["r"], step.get("port", 5683)), local=local)
+        sock = state["other_sock"] if step.get("ctx") == "other" else state["sock"]
+        w.net.inject(sock, data, sockaddr(step["r"], step.get("port", 5683)), local=local)
 
     def on_sent(rec):
         r = rnum(rec["to"])
@@ -195,13 +196,16 @@ def run(sched):
             return
         f = msg_fields(m, rec["data"])
         q = q_of(r, m["token"]) if f["cls"] == "req" else 0
-        ev("tx", r=r, q=q, **f)
+        dest_mc = str(rec["to"][0]).lower().startswith("ff")
+        ev("tx", r=r, q=q, x="other" if rec["sock"] == "other" else "", loc="m" if dest_mc else "u", **f)
         fired = []
         if q:
             copies[q] = copies.get(q, 0) + 1
             for trig in sched.get("triggers", ()):
                 on = trig["on"]
                 if on.get("q") == q and on.get("copy") == copies[q]:
+                    if rec["sock"] == "other":
+                        trig = dict(trig, rx=dict(trig["rx"], ctx="other"))
                     fired.append(trig)
         key = (f["ty"], f["cls"])
         txcount[key] = txcount.get(key, 0) + 1
@@ -214,6 +218,8 @@ def run(sched):
                     rx["mid"] = f["mid"]
                 if rx.get("tok") == "same":
                     rx["tok"] = f["tok"]
+                if rec["sock"] == "other":
+                    rx["ctx"] = "other"
                 if not rx.get("r"):
                     rx["r"] = r
                 t2["rx"] = rx
@@ -369,8 +375,10 @@ def run(sched):
         w.loop.fake_readers[sock.fileno()] = (reader, cbargs)
 
         other = None
+        state["other_sock"] = None
         if sched.get("other_context"):
             other = await w.make_context(name="other")
+            state["other_sock"] = other._verif["sock"]
 
         last_at = 0
         for step in sched["steps"]:
